@@ -235,6 +235,28 @@ def real_kernel():
     return CphotAng(525.0)
 
 
+OWNED = [("mono", 3), ("mono", 1), ("map", 3), ("map", 2), ("none", 3)]
+
+
+def judge_owned_kernel(ck, ps):
+    """the kernel as an optical stage owns it (configured with a cloud model), its batch entry point called with the
+    cloud callback OMITTED: bit for bit the events one at a time with no callback (the configuration's cloud model
+    reaches the kernel through the callback argument only)"""
+    import dask
+
+    from nuspacesim.simulation.eas_optical.eas import EAS
+
+    args = real_events()
+    exp = sequential(real_kernel, args, "none")
+    k = EAS(sim.make_config(cloud=ck)).CphotAng
+    with own.null_progress(), part_size(ps), np.errstate(all="ignore"), dask.config.set(scheduler="synchronous"):
+        try:
+            got = digest(k(*args))
+        except BaseException as ex:
+            got = f"raised {type(ex).__name__}"
+    return [] if got == exp else [("batch_equals_one_at_a_time", exp, got)]
+
+
 # ---- E3b -----------------------------------------------------------------------------------------
 
 def racy_kernel():
@@ -419,6 +441,10 @@ def run(ctx):
             clause = "failure_surfaces_as_error" if str(r["ck"]).startswith("fault:") else "batch_equals_one_at_a_time"
             ctx.violation(clause, {"kind": "real", "cloud": r["ck"], "ps": r["ps"], "sch": r["sch"], "w": r["w"], "cs": r["cs"], "choices": choices}, r["exp"], o)
     ctx.cov["real_kernel_executions"] = nr
+    for ck, ps in OWNED:
+        ctx.tick(NREAL, ("owned_kernel", ck, ps))
+        for c, e, o in judge_owned_kernel(ck, ps):
+            ctx.violation(c, {"kind": "owned", "cloud": ck, "ps": ps}, e, o)
     args = real_events()
     for ck in ("none", "mono", "map"):
         cl = cloud(ck)
@@ -481,6 +507,8 @@ def run(ctx):
 
 def replay(case):
     k = case["kind"]
+    if k == "owned":
+        return judge_owned_kernel(case["cloud"], case["ps"])
     if k == "plumb":
         fa = case["fail_at"]
         args, cl = fault_setup(case["n"], fa)
